@@ -23,9 +23,11 @@ class State:
         self.events = []
         self.returned = None
         self.fields = {}
+        self.exprs = {}      # local name -> expression it was assigned on this path (used to decide tests on temporaries)
 
     def clone(self):
         s = State()
+        s.exprs = dict(self.exprs)
         s.env = dict(self.env)
         s.guards = list(self.guards)
         s.events = list(self.events)
@@ -128,12 +130,24 @@ class SymExec:
             self._calls(s.value, st)
             if isinstance(t, ast.Name):
                 st.env[t.id] = self.value(s.value, st)
+                if t.id not in {x.id for x in ast.walk(s.value) if isinstance(x, ast.Name)}:
+                    st.exprs[t.id] = self._resolve(s.value, st)
+                else:
+                    st.exprs.pop(t.id, None)
             elif isinstance(t, ast.Attribute) and isinstance(t.value, ast.Name) and t.value.id == 'self':
                 st.fields[t.attr] = self.value(s.value, st)
             elif isinstance(t, ast.Tuple):
-                for n in t.elts:
+                for k, n in enumerate(t.elts):
                     if isinstance(n, ast.Name):
-                        st.env[n.id] = ('opaque', src(s.value))
+                        # element k of the unpacked value (`op, length = R1.cigartuples[0]`)
+                        elt = ast.Subscript(value=s.value, slice=ast.Constant(value=k), ctx=ast.Load())
+                        v = self.value(elt, st) if not isinstance(s.value, (ast.Call, ast.Tuple)) else ('opaque', src(s.value))
+                        if isinstance(s.value, ast.Tuple) and len(s.value.elts) == len(t.elts):
+                            v = self.value(s.value.elts[k], st)
+                            elt = s.value.elts[k]
+                        st.env[n.id] = v
+                        if not isinstance(s.value, ast.Call):
+                            st.exprs[n.id] = self._resolve(elt, st)
             return [st]
         if isinstance(s, ast.AugAssign) and isinstance(s.target, ast.Name) and isinstance(s.op, (ast.Add, ast.Sub)):
             cur = st.env.get(s.target.id)
@@ -156,6 +170,8 @@ class SymExec:
             return [st]
         if isinstance(s, ast.If):
             v = eval3(s.test, {}, self.atom_fn(st))
+            if v is UNK and st.exprs:
+                v = eval3(self._resolve(s.test, st), {}, self.atom_fn(st))
             res = []
             if v is UNK:
                 for pol, body in ((True, s.body), (False, s.orelse)):
@@ -182,6 +198,21 @@ class SymExec:
                     st.env[n.id] = ('opaque', 'loop')
             return [st]
         return [st]
+
+    def _resolve(self, e, st, depth=3):
+        """e with the locals assigned on this path replaced by the expressions they hold"""
+        import copy
+        names = {x.id for x in ast.walk(e) if isinstance(x, ast.Name)}
+        if depth <= 0 or not (names & set(st.exprs)):
+            return e
+        exprs = st.exprs
+
+        class T(ast.NodeTransformer):
+            def visit_Name(self, n):
+                if n.id in exprs and isinstance(n.ctx, ast.Load):
+                    return copy.deepcopy(exprs[n.id])
+                return n
+        return T().visit(copy.deepcopy(e))
 
     def _calls(self, e, st):
         for c in walk_no_nested(e):
